@@ -183,11 +183,11 @@ func r05Prepare(c *an.Ctx) {
 			continue
 		}
 		n++
-		for _, sf := range an.StaleFlags(f) {
-			c.Failf(rule, fmt.Sprintf("%s#flag(%s)", f.Name, sf.Var.Name()), sf.Set.Pos(), "search flag %s is set in an inner loop and tested in the enclosing loop (at %s) without being reset: once one error resolves, later errors are treated as resolved and get no response mapping", sf.Var.Name(), c.Position(sf.Read.Pos()))
+		for _, h := range an.AllLints(f) {
+			c.Failf(rule, h.Construct, h.Pos, "%s (error name→response resolution: later errors get no response mapping or the wrong one)", h.Msg)
 		}
 	}
-	c.Okf(rule, "expr.HTTP*Expr#flags", "%d methods scanned: error name→response resolution has no stale search flag", n)
+	c.Okf(rule, "expr.HTTP*Expr#flags", "%d methods scanned: error name→response resolution shows none of the control-flow defect patterns (stale flag, abandoned loop, …)", n)
 	c.Floor(rule, n, 20, "HTTP expression methods")
 }
 
